@@ -10,16 +10,18 @@ from .c05 import pred_table
 from .driverworld import IE
 
 EXPLANATION = (
-    "C08.CODEC: the encoder and decoder of values.BLOB are the matching base64 pair (b64encode of .binary, b64decode into .binary), size is "
-    "len(.binary); every producer of a oneBLOB passes the value's binary_base64, size and format (driver update emitter, client upload); "
-    "every consumer decodes msg.value with from_base64(msg.value, msg.format), stores exactly that object and compares the declared size, "
-    "coerced with int(), with the decoded length (both consumers agree). C08.NULL: an empty or absent payload (the parser yields "
-    "value=None) never reaches b64decode as None: from_base64 is interpreted with None, '' and a symbolic text, with b64decode(None) made "
-    "to raise. C08.PRED: the BLOB rows of the router's delivery truth table (setBLOBVector and defBLOBVector x policy x sender): clients "
-    "that did not enable BLOBs receive no payload; Also/Only clients do. C08.CONFIG: the junk-recovery threshold is disabled exactly on the "
-    "BLOB connection: the client connection handler's constructor stores None iff for_blobs; TCP.connect forwards for_blobs; Client.start "
-    "passes for_blobs=True for the BLOB connection only; the default threshold is a positive integer. C08.PROGRESS: C11's ranking rule "
-    "restricted to paths that assume the threshold disabled - a partial BLOB must make process() leave the loop, not spin."
+    'C08.CODEC: the encoder and decoder of values.BLOB are the matching base64 pair (b64encode of .binary, b64decode into .binary), size is '
+    "len(.binary); every producer of a oneBLOB passes its own value's binary_base64, size and format (driver update emitter evaluated on a "
+    'constructed element beside a sibling with a different value; client upload via imported C06.CTOR); every consumer, evaluated on a '
+    'constructed driver element / mirrored client element, decodes msg.value with from_base64(msg.value, msg.format) once, keeps exactly that '
+    "object as the element's value and compares the declared size, coerced with int(), with the decoded length (both consumers agree). C08.NULL: "
+    "an empty or absent payload (the parser yields value=None) never reaches b64decode as None: from_base64 is interpreted with None, '' and a "
+    "symbolic text, with b64decode(None) made to raise. C08.PRED: the BLOB rows of the router's delivery truth table (setBLOBVector and "
+    'defBLOBVector x policy x sender): clients that did not enable BLOBs receive no payload; Also/Only clients do. C08.CONFIG: the junk-recovery '
+    "threshold is disabled exactly on the BLOB connection: the client connection handler's constructor stores None iff for_blobs; TCP.connect "
+    'forwards for_blobs; Client.start passes for_blobs=True for the BLOB connection only; the default threshold is a positive integer. '
+    "C08.PROGRESS: C11's ranking rule restricted to paths that assume the threshold disabled - a partial BLOB must make process() leave the loop, "
+    'not spin.'
 )
 NOT_DECIDED = "byte equality for all payloads and sizes (that is base64's contract, listed as trusted base); transfer of multi-megabyte payloads through real sockets."
 ASSUMPTIONS = ["base64.b64decode(base64.b64encode(b)) == b for every byte string b", "latin-1 encoding of base64 text is loss-free"]
